@@ -486,6 +486,24 @@ func explorePomDoc(r *ev.Run, d *pomDoc) {
 	noop := base
 	run(&noop)
 	n := len(in.mIn.deps)
+	// a requirement that is not in the file and has to be added to the project's dependencyManagement
+	// (override of a transitive dependency): alone, and together with every single existing requirement
+	addUpd := func(to string) updSpec { return updSpec{Name: "org.new:added", To: to, Add: true} }
+	for _, to := range []string{"2.0", "3.0.0-jre"} {
+		cs := base
+		cs.Updates = []updSpec{addUpd(to)}
+		run(&cs)
+	}
+	for idx := 0; idx < n; idx++ {
+		cs := base
+		cs.Updates = []updSpec{in.mIn.deps[idx].upd("2.0"), addUpd("10.1")}
+		run(&cs)
+		if r.Thorough() {
+			cs := base
+			cs.Updates = []updSpec{addUpd("2.0"), in.mIn.deps[idx].upd("2.0")}
+			run(&cs)
+		}
+	}
 	for _, sub := range subsets(n, d.Sub) {
 		if r.Expired() {
 			r.Cap("deadline inside a pom document (update sets of size <= %d)", d.Sub)
@@ -736,6 +754,8 @@ func (m *pomModel) effective(d *pdep) string {
 
 type readReq struct {
 	ID, Name, Type, Version string
+	Direct                  bool // from Manifest.Requirements() (not RequirementsForUpdates)
+	Origin                  string
 }
 
 func pomReadReqs(rw guidedremediation.VerifReadWriter, fsys scalibrfs.FS, main string) (guidedremediation.VerifManifest, []resolve.RequirementVersion, []readReq, error) {
@@ -761,12 +781,14 @@ func pomReadReqs(rw guidedremediation.VerifReadWriter, fsys scalibrfs.FS, main s
 	}
 	var out []readReq
 	var keep []resolve.RequirementVersion
-	for _, q := range all {
-		if o, _ := q.Type.GetAttr(dep.MavenDependencyOrigin); o == "parent" {
+	nDirect := len(man.Requirements())
+	for i, q := range all {
+		o, _ := q.Type.GetAttr(dep.MavenDependencyOrigin)
+		if o == "parent" {
 			continue
 		}
 		keep = append(keep, q)
-		out = append(out, readReq{reqID(q), q.Name, q.Type.String(), q.Version})
+		out = append(out, readReq{ID: reqID(q), Name: q.Name, Type: q.Type.String(), Version: q.Version, Direct: i < nDirect, Origin: o})
 	}
 	return man, keep, out, nil
 }
@@ -847,8 +869,21 @@ func runPomWith(in *pomInput, cs *caseSpec, outDir string) (o outcome) {
 
 	// updates
 	target := map[string]string{} // dep name -> requested version
+	added := map[string]string{}  // requirement that has to be added -> requested version
 	var pus []result.PackageUpdate
 	for _, u := range cs.Updates {
+		if u.Add {
+			if byName[u.id()] != nil {
+				bad("harness:added-requirement-already-present", "%s", u.id())
+				return
+			}
+			added[u.id()] = u.To
+			o.changed = true
+			t := dep.NewType()
+			t.AddAttr(dep.MavenDependencyOrigin, "management")
+			pus = append(pus, result.PackageUpdate{Name: u.Name, VersionFrom: "", VersionTo: u.To, Type: t, Transitive: true})
+			continue
+		}
 		d := byName[u.id()]
 		if d == nil {
 			bad("harness:update-addresses-unknown-requirement", "%s", u.id())
@@ -948,7 +983,20 @@ func runPomWith(in *pomInput, cs *caseSpec, outDir string) (o outcome) {
 	if len(cs.Updates) > 0 {
 		stripped := make([][]*xnode, len(chain))
 		for fi := range chain {
-			stripped[fi] = stripAppendedDepMgmt(mIn.roots[fi], mOut.roots[fi], mOut.trees[fi], target, &o)
+			accept := target
+			if fi == 0 && len(added) > 0 { // new managed requirements belong to the manifest itself
+				accept = map[string]string{}
+				for k, v := range target {
+					accept[k] = v
+				}
+				for k, v := range added {
+					accept[k] = v
+				}
+			}
+			stripped[fi] = stripAppendedDepMgmt(mIn.roots[fi], mOut.roots[fi], mOut.trees[fi], accept, &o)
+			if fi == 0 && len(added) > 0 {
+				stripped[fi] = stripInsertedManaged(mIn.roots[fi], stripped[fi], added)
+			}
 		}
 		if mOut, err = modelFromTrees(stripped, chain); err != nil {
 			bad("harness:pom-model", "%v", err)
@@ -1054,6 +1102,37 @@ func runPomWith(in *pomInput, cs *caseSpec, outDir string) (o outcome) {
 		}
 		sort.Strings(out)
 		return out
+	}
+	// added requirements: exactly one managed requirement each, in Requirements(), at the requested version
+	if len(added) > 0 {
+		var rest []readReq
+		seen := map[string]int{}
+		for _, q := range reqsOut {
+			to, isAdded := added[q.ID]
+			if !isAdded {
+				rest = append(rest, q)
+				continue
+			}
+			seen[q.ID]++
+			if q.Version != to || !q.Direct || q.Origin != "management" {
+				bad("pom:wrong-version-written", "added requirement %s read back as version %q origin %q (in Requirements(): %v), requested managed %q", q.ID, q.Version, q.Origin, q.Direct, to)
+			}
+		}
+		ids := make([]string, 0, len(added))
+		for id := range added {
+			ids = append(ids, id)
+		}
+		sort.Strings(ids)
+		for _, id := range ids {
+			switch seen[id] {
+			case 1:
+			case 0:
+				bad("pom:silent-non-application", "Write returned nil but the requirement %s -> %s that had to be added to dependencyManagement is not in Read(output)", id, added[id])
+			default:
+				bad("pom:wrong-version-written", "added requirement %s appears %d times in Read(output)", id, seen[id])
+			}
+		}
+		reqsOut = rest
 	}
 	want, got := norm(reqsIn, mIn, true), norm(reqsOut, mOut, false)
 	if strings.Join(want, "\n") != strings.Join(got, "\n") {
@@ -1180,6 +1259,83 @@ func stripAppendedDepMgmt(inRoot, outRoot *xnode, outTree []*xnode, target map[s
 	for _, n := range outTree {
 		if n == outRoot {
 			out = append(out, &cp)
+		} else {
+			out = append(out, n)
+		}
+	}
+	return out
+}
+
+// stripInsertedManaged accepts (and removes for the comparison) <dependency> elements that the writer
+// inserted into the existing project-level <dependencyManagement><dependencies> for requirements that
+// had to be added, at their requested version. Whitespace-only text next to them is don't-care.
+func stripInsertedManaged(inRoot *xnode, outTree []*xnode, added map[string]string) []*xnode {
+	var outRoot *xnode
+	for _, n := range outTree {
+		if n.K == 'E' {
+			outRoot = n
+		}
+	}
+	if outRoot == nil {
+		return outTree
+	}
+	inDM, outDM := inRoot.kid("dependencyManagement"), outRoot.kid("dependencyManagement")
+	if inDM == nil || outDM == nil {
+		return outTree
+	}
+	inDeps, outDeps := inDM.kid("dependencies"), outDM.kid("dependencies")
+	if inDeps == nil || outDeps == nil {
+		return outTree
+	}
+	present := map[string]bool{}
+	for _, dn := range inDeps.kidsNamed("dependency") {
+		present[depID(dn.kid("groupId").text()+":"+dn.kid("artifactId").text(), dn.kid("type").text(), dn.kid("classifier").text())] = true
+	}
+	cp := *outDeps
+	cp.Kids = nil
+	removed := false
+	for _, k := range outDeps.Kids {
+		if k.K == 'E' && k.Name == "dependency" {
+			id := depID(k.kid("groupId").text()+":"+k.kid("artifactId").text(), k.kid("type").text(), k.kid("classifier").text())
+			if to, ok := added[id]; ok && !present[id] && k.kid("version").text() == to {
+				removed = true
+				continue
+			}
+		}
+		if k.K == 'T' && len(cp.Kids) > 0 && cp.Kids[len(cp.Kids)-1].K == 'T' {
+			merged := *cp.Kids[len(cp.Kids)-1]
+			merged.Text += k.Text
+			cp.Kids[len(cp.Kids)-1] = &merged
+			continue
+		}
+		cp.Kids = append(cp.Kids, k)
+	}
+	if !removed {
+		return outTree
+	}
+	for i, k := range cp.Kids { // whitespace around the inserted elements is free
+		if k.K == 'T' && strings.TrimSpace(k.Text) == "" && i < len(inDeps.Kids) && inDeps.Kids[i].K == 'T' && strings.TrimSpace(inDeps.Kids[i].Text) == "" {
+			c := *k
+			c.Text = inDeps.Kids[i].Text
+			cp.Kids[i] = &c
+		}
+	}
+	replace := func(parent *xnode, old, nw *xnode) *xnode {
+		c := *parent
+		c.Kids = append([]*xnode{}, parent.Kids...)
+		for i, k := range c.Kids {
+			if k == old {
+				c.Kids[i] = nw
+			}
+		}
+		return &c
+	}
+	newDM := replace(outDM, outDeps, &cp)
+	newRoot := replace(outRoot, outDM, newDM)
+	var out []*xnode
+	for _, n := range outTree {
+		if n == outRoot {
+			out = append(out, newRoot)
 		} else {
 			out = append(out, n)
 		}
